@@ -71,7 +71,7 @@ type verifC11Act struct {
 	Token string     `json:"token,omitempty"`
 	ACL   string     `json:"acl,omitempty"` // token:TA | token-del:TA | policy:P1 | policy:P2 | role:R1
 	Idx   uint64     `json:"idx,omitempty"`
-	N     int        `json:"n,omitempty"` // drain: batches; consume: deliveries; sleep: seconds
+	N     int        `json:"n,omitempty"` // drain: batches; consume: deliveries; sleep: seconds; restore: 1 = publish every queued batch first
 }
 
 func (a verifC11Act) String() string {
@@ -409,6 +409,11 @@ func (w *verifC11World) step(a *verifC11Act) {
 	case "snap":
 		w.takeSnapshot()
 	case "restore":
+		if a.N == 1 { // the publisher caught up before the restore (the usual case in production)
+			for len(w.queue) > 0 {
+				w.drainOne()
+			}
+		}
 		w.restore()
 	case "sleep":
 		time.Sleep(time.Duration(a.N) * time.Second)
